@@ -836,3 +836,4 @@ Section Program.
       destruct Hq as (f0 & Hq). destruct (Hq f0 (le_n _)) as (s' & _ & Hs'). exact (IHr s' Hs').
   Qed.
 End Program.
+
